@@ -10,12 +10,16 @@
                                                          MultiDictView.add/insert (tuple + list) raise TypeError
    One action per public operation:
      Assign     request.<view> = pairs                    (the setter: url.encode / format_cookie_header /
-                                                           encode_multipart / quote + urlunparse)
+                                                           encode_multipart / quote + urlunparse); on a blank message or
+                                                           over an existing corpus message (sc.base): as a container the
+                                                           view must read the same pairs whatever the message held before
      WriteBack  request.<view> = request.<view>.fields    on the message just assigned, or on a wire message of the corpus
      Add/Del/SetItem  MultiDictView.add / __delitem__ / __setitem__  (getter, change the tuple, setter)
    The scenario (view, pair list or corpus message, how many operations follow) is chosen in Init.              *)
 EXTENDS Mon_Views, TLC
-CONSTANTS Scen,       \* set of [kind |-> "fresh"|"wire", view, pairs, cls, wcls, same |-> BOOLEAN, depth |-> Nat]
+CONSTANTS Scen,       \* set of [kind |-> "fresh"|"wire", view, pairs, cls, wcls, same |-> BOOLEAN, depth |-> Nat,
+                      \*         wire |-> corpus message written back (kind "wire"), base |-> corpus message the
+                      \*         assignment is made over (0 = a blank message), bcls |-> its class]
           LossyVal, Dropped,
           MutPairs,   \* set of <<view, <<key id, value id>>>> used by Add / SetItem / Del
           AddRaises   \* views whose getter returns a list: MultiDictView.add / insert (tuple + list) raise TypeError
@@ -40,7 +44,7 @@ Assign ==
   /\ LET r == ReadBack(sc.view, sc.pairs)
      IN /\ cur' = r /\ faithful' = (r = sc.pairs) /\ pc' = "run" /\ UNCHANGED <<sc, ops>>
         /\ Emit(<<[k |-> "assign", view |-> sc.view, rep |-> TRUE, pairs |-> sc.pairs, cls |-> sc.cls, exc |-> "",
-                   read |-> r]>>)
+                   over |-> sc.bcls, read |-> r]>>)
 
 Can == Live /\ pc = "run" /\ ops < sc.depth
 \* the setter re-encodes what the getter returned: a message that was not faithful to the assigned pairs changes
